@@ -154,6 +154,19 @@ def main(ctx, replay=None):
                       {"record": bad, "index": consumed}, {"fn": "trace", "kind": bad["kind"]})
     ctx.cov["trace_records"] = len(records)
 
+    # the repository's own tests as drivers (thorough): every top-level c_ call they make is validated as well
+    if ctx.tier == "thorough":
+        from cv.repotests import run_tests
+        mods = ["test_cij_util_voigt.py", "test_cij_io_traditional.py", "test_cij_util_fill.py", "test_cij_cli_fill.py"]
+        rec2 = _record_calls(lambda: run_tests(ctx.subdir("repotests"), mods), minimum=20)
+        ok3, consumed3, _ = validate_trace(ctx, "Trace_Voigt", "Trace_Voigt.cfg", rec2, name="voigt_repo_tests")
+        ctx.cov["repo_tests"] = {"modules": mods, "distinct_calls": len(rec2)}
+        for r in rec2:
+            ctx.count({"trace": [r["kind"], r["d"]], "from": "repo tests"})
+        if not ok3:
+            bad = rec2[consumed3]
+            ctx.violation(f"c_ call #{consumed3} {bad} made while the repository's tests ran is not a Spell step of the specification",
+                          {"record": bad, "index": consumed3}, {"fn": "trace", "kind": bad["kind"]})
     # negative control of the binding (thorough only): corrupt one record, expect rejection
     if ctx.tier == "thorough" and records:
         cor = [dict(r) for r in records]
@@ -179,8 +192,8 @@ def _classify(args):
     return None
 
 
-def _record_calls():
-    """Wrap the public constructors (harness side), run real library code, return NDJSON-able records."""
+def _record_calls(workload=None, minimum=50):
+    """Wrap the public constructors (harness side), run real library code (or `workload`), return NDJSON-able records."""
     import numpy
     import cij.util.voigt as V
     from cij.core.phonon_contribution.shear import ShearElasticModulusPhononContribution
@@ -209,7 +222,9 @@ def _record_calls():
 
     V.ModulusRepresentation.create = classmethod(create)
     try:
-        for ex in ("akimotoite/input02", "bridgmanite/elast.dat", "diopside/input02"):
+        if workload is not None:
+            workload()
+        for ex in (("akimotoite/input02", "bridgmanite/elast.dat", "diopside/input02") if workload is None else ()):
             read_elast_data(str(REPO / "examples" / ex))
         strain = numpy.array([[0.2, 0.3, 0.5]])
         for I in range(1, 7):
@@ -234,7 +249,7 @@ def _record_calls():
                 pass
     finally:
         V.ModulusRepresentation.create = classmethod(orig)
-    if len(records) < 50:
+    if len(records) < minimum:
         raise MachineryError(f"recorder captured only {len(records)} c_ calls")
     # de-duplicate consecutive repeats but keep order
     out, seen = [], set()
